@@ -36,7 +36,7 @@ pub open spec fn diff_stat_claims(sm: &StateMachine) -> Option<Seq<char>> {
 
 impl<'a> StateMachine<'a> {
     //@ fn src/handlers/diff_stat.rs StateMachine::test_diff_stat_line
-    //@| ensures r == diff_stat_test(self),
+    //@| ensures r == diff_stat_test(self),  // @C04,C19:a.diff.stat.line.is.looked.for.only.after.commit.metadata
     //@before <<<(self.state == State::CommitMeta>>>| proof { axiom_state_eq(); }
     //@ fn src/handlers/diff_stat.rs StateMachine::handle_diff_stat_line
     //@| ensures sm_frame(final(self), old(self)), final(self).state == old(self).state,
@@ -48,7 +48,7 @@ impl<'a> StateMachine<'a> {
 
     //@ stub src/handlers/mod.rs StateMachine::handle_additional_cases spec=diff_header.handle_additional_cases
     //@ fn src/handlers/submodule.rs StateMachine::test_submodule_log
-    //@| ensures r == is_prefix("Submodule "@, self.line@),
+    //@| ensures r == is_prefix("Submodule "@, self.line@),  // @C04:a.submodule.log.line.is.claimed.by.its.prefix
     //@ fn src/handlers/submodule.rs StateMachine::handle_submodule_log_line
     //@| requires get_style_defined(State::SubmoduleLog),
     //@| ensures !is_prefix("Submodule "@, old(self).line@) ==> r == Ok::<bool, std::io::Error>(false) && final(self).state == old(self).state && final(self).painter == old(self).painter,  // @C04:submodule.log.decline.changes.nothing
